@@ -889,7 +889,7 @@ func c12oracleRun(root string, sc c12script, rng *hx.Rng) (*c12run, error) {
 // judge: the property on the implementation's own behaviour.
 func (run *c12run) judge(res *hx.Result, sw map[string]bool, desc string) {
 	key := ""
-	for _, k := range []string{"dup_relock", "write_blocks", "alloc_from_wire", "sig_parse_exponential"} {
+	for _, k := range []string{"dup_relock", "write_blocks", "alloc_from_wire", "sig_parse_exponential", "stale_closer"} {
 		if run.tags[k] && sw[k] {
 			key = k
 		}
@@ -961,6 +961,15 @@ func runC12(res *hx.Result, rng *hx.Rng, tier string, outdir string) {
 	probeSwitch("flood-2000-metaobject-unread", dead, "2000 metaObject calls sent without reading the answers: the object's goroutine blocks in its write; a fresh client gets no answer")
 	probeSwitch("hostile-list-count-registerService", func(r *c12run) bool { return !r.alive || r.probes[0] != int(net.Reply) }, "registerService whose Endpoints count is 0xffffffff: the generated decoder allocates from the wire count; the server process dies")
 	probeSwitch("nested-signature-in-value", dead, "setProperty with a value whose signature nests 22 parentheses: signature.Parse is exponential; the object's goroutine is busy for minutes")
+	// registrations still queued when their connection ends (c12burst.go); a race, so the probe repeats
+	if hit, n, sent := c12staleCloserProbe(root, 60); true {
+		sw["stale_closer"] = hit
+		what := c12staleCloserWhat
+		if hit {
+			what += fmt.Sprintf("; here at attempt %d: after 120 answered registerEvent calls the client wrote in one write and closed: %s", n, sent)
+		}
+		res.Switch("stale_closer", hit, what)
+	}
 	// terminated object still answering (C16's subject; only needed to evaluate the model faithfully)
 	removedAnswers := true
 	if ch, err := c12start(root); err == nil {
@@ -1169,6 +1178,9 @@ func runC12(res *hx.Result, rng *hx.Rng, tier string, outdir string) {
 		}
 	}
 	cf.Flush()
+
+	// ---- bursts with the message type varied (c12burst.go) ----
+	c12bursts(res, rng, root, outdir, cfg, sw, rounds)
 
 	// ---- oracle-only scripts ----
 	for round := 0; round < rounds; round++ {
